@@ -10,7 +10,10 @@ RULE = ('DEV with fault budget: two real endpoints with a pending mix (late requ
         'side; afterwards the clock advances 3 keep-alive periods; oracle per endpoint that observed the loss: every subscriber / '
         'awaitable handed out before is terminated (with an error if it was still pending), responder-side publishers and handler '
         'futures cancelled, on_close exactly once, nothing written after the loss was handled, tasks done; non-trivial = execution '
-        'in which the fault struck while at least one interaction was pending; states = distinct world fingerprints at choice points')
+        'in which the fault struck while at least one interaction was pending; states = distinct world fingerprints at choice points. '
+        'Close during reconnect (SEQ): client with a provider of three transports, previous connection ended by {nothing, EOF, read error, read '
+        'error+failing writes}, reconnect() asked for by the application or from on_close, close() called k = 0..15 loop iterations later '
+        '(tcp and quic, with and without pending requests); afterwards virtual time runs three lifetimes: no transport taken, no frame written')
 EXPLANATION = 'stateless exploration: default schedule x every fault placement (bound 1), plus one further deviation before the fault (bound 2 units)'
 ASSUMPTIONS = ['a read error on one side leaves the other side half-open (it is judged only if it observes a loss itself)',
                'message-mode links are not used: the aiohttp transport objects do not report an orderly close to the engine (DESIGN.md 7)']
@@ -167,6 +170,126 @@ class LossMix(Mix):
             sorted((ev[1], ev[2], ev[3]) for ev in w.log if ev[0] == 'api' and ev[3] in ('E', 'future-error', 'cancel', 'on_close')))
 
 
+
+# ---- close() while a reconnect is being carried out -----------------------------------------------------------------------
+RECONNECT_CAUSES = ('healthy', 'eof', 'rst', 'wr')
+CLOSE_STEPS = 16
+
+
+def close_during_reconnect(flavour, cause, trigger, k, pending, part):
+    """A client with a provider of three transports; the connection ends by `cause`, reconnect() is asked for (by the
+    application itself or from its on_close callback), and the application calls close() exactly k loop iterations later -
+    every k from 'same iteration' to 'the new connection is up'. After close() the client is closed: it sends nothing any more on
+    any transport (virtual time runs on for three lifetimes), notifies on_close at most once per connection, and the requests
+    that were pending have failed."""
+    from datetime import timedelta
+    from mc.app import P, RecSubscriber, watch_future
+    from mc.world import World, start_client, start_server
+    w = World()
+    try:
+        conns = [w.new_conn(flavour) for _ in range(3)]
+        late = []
+
+        def rr(h, p):
+            f = w.loop.create_future()
+            late.append(f)
+            return f
+
+        for c in conns:
+            start_server(w, c, {'request_response': rr})
+        closes = []
+
+        def on_close(h, rsocket):
+            closes.append(len(w.log))
+            if trigger == 'on_close' and len(closes) == 1:
+                w.logev(('reconnect-requested', 'on_close'))
+                return rsocket.reconnect()
+
+        client = start_client(w, conns, {'on_close': on_close}, keep_alive_period=timedelta(seconds=0.5), max_lifetime_period=timedelta(seconds=1.0))
+
+        def pump():
+            for _ in range(6):
+                moved = False
+                for c in conns:
+                    for d in (c.c2s, c.s2c):
+                        if c.stream:
+                            if d.pending and d.sink_alive():
+                                d.deliver_bytes(len(d.pending))
+                                moved = True
+                        else:
+                            while d.msgs and d.sink_alive():
+                                d.deliver_message()
+                                moved = True
+                w.run_q()
+                if not moved:
+                    break
+
+        w.run_q()
+        pump()
+        st = {}
+        if pending:
+            st['fut'] = watch_future(w, 'c', 'futA', client.request_response(P(b'late')))
+            st['sub'] = RecSubscriber(w, 'c', 'subB')
+            client.request_stream(P(b's')).initial_request_n(1).subscribe(st['sub'])
+            pump()
+        # the previous connection ends / the application asks for the reconnect
+        c0 = conns[0]
+        if cause == 'eof':
+            c0.s2c.deliver_eof()
+        elif cause in ('rst', 'wr'):
+            if cause == 'wr':
+                c0.c2s.write_error = True
+            c0.s2c.deliver_error()
+        if trigger == 'free':
+            w.logev(('reconnect-requested', 'free'))
+            w.loop.create_task(client.reconnect())
+        for _ in range(k):
+            w.loop.step()
+        mark = len(w.log)
+        w.logev(('close-called',))
+        closer = w.loop.create_task(client.close())
+        w.run_q()
+        pump()
+        quiet = len(w.log)
+        # virtual time runs on: a closed client has no keepalive to send and takes no further transport
+        loop = w.loop
+        target = loop.time() + 3.0
+        while True:
+            t = loop.next_timer()
+            if t is None or t > target:
+                break
+            loop.advance_to(t)
+            w.run_q()
+            pump()
+        part.evaluations += 1
+        part.traces += 1
+        part.transitions += k + 2
+        ctx = 'close-during-reconnect | %s/%s' % (cause, trigger)
+        wit = {'kind': 'close-during-reconnect', 'flavour': flavour, 'cause': cause, 'trigger': trigger, 'k': k, 'pending': pending}
+        late_tx = [ev for ev in w.log[quiet:] if ev[0] == 'tx' and ev[1].startswith('c')]
+        took = [ev[1] for ev in w.log[quiet:] if ev[0] == 'provide']
+        part.state((flavour, cause, trigger, pending, closer.done(), len(late_tx), len(took), len(closes)))
+        part.outcome((closer.done(), bool(late_tx), len(closes)))
+        if not any(ev[0] == 'provide' and ev[1] != conns[0].cname for ev in w.log[:mark]):
+            part.nontriv((flavour, cause, trigger, k, pending))  # close() arrived before the next connection existed
+        if late_tx or took:
+            part.violate('C11.stops-sending', 'C11.stops-sending | %s | after-close' % ctx,
+                         'close() called %d loop iterations after the reconnect request: afterwards the client took %s from its provider and wrote %s (close() %s)' % (
+                             k, took, [ev[2].name for ev in late_tx][:6], 'returned' if closer.done() else 'never returned'), wit)
+        per_conn = len(closes)
+        if per_conn > 2:
+            part.violate('C11.on-close-once', 'C11.on-close-once | %s | calls=%d' % (ctx, per_conn), 'on_close invoked %d times for at most two connections' % per_conn, wit)
+        if pending and cause != 'healthy':
+            if st['fut']['state'] == 'pending':
+                part.violate('C11.pending-failed', 'C11.pending-failed | %s | awaitable' % ctx, 'request-response pending when the connection ended was never failed (k=%d)' % k, wit)
+            if st['sub'].terminal() is None:
+                part.violate('C11.pending-failed', 'C11.pending-failed | %s | subscriber' % ctx, 'stream pending when the connection ended was never failed (k=%d)' % k, wit)
+        for msg, exc, txt in w.loop.read_exc_log():
+            part.violate('C11.no-unhandled-exception', 'C11.no-unhandled-exception | %s | %s' % (ctx, exc), '%s: %s' % (msg, txt), wit)
+    finally:
+        w.teardown()
+
+
 def mixes():
     M = {}
     M['rr+stream c'] = [dict(kind='rr', init='c', tag='A', rr_mode='late'), dict(kind='stream', init='c', tag='B', down=3, pub='manual', credit='one')]
@@ -248,6 +371,8 @@ def make_units(tier):
                 ins = [dict(d, size='F' if fs else 'S') for d in inters]
                 units.append({'name': name, 'inters': ins, 'fs': fs, 'kinds': list(kinds), 'cut_points': 'all' if tier == 'thorough' else 'boundaries',
                               'bound': 1, 'shard': [0, 1], 'flavour': 'quic'})
+    for flavour in ('tcp', 'quic'):
+        units.append({'kind': 'close-during-reconnect', 'flavour': flavour, 'name': 'close-during-reconnect', 'bound': 0, 'shard': [0, 1], 'inters': [], 'fs': None, 'kinds': [], 'cut_points': 'boundaries'})
     return units
 
 
@@ -265,6 +390,14 @@ def scenario_of(unit):
 
 
 def run_unit(unit, part):
+    if unit.get('kind') == 'close-during-reconnect':
+        for cause in RECONNECT_CAUSES:
+            for trigger in (('free',) if cause == 'healthy' else ('free', 'on_close')):
+                for pending in (False, True):
+                    for k in range(CLOSE_STEPS):
+                        close_during_reconnect(unit['flavour'], cause, trigger, k, pending, part)
+        part.sample({'kind': 'close-during-reconnect', 'link': unit['flavour'], 'causes': list(RECONNECT_CAUSES), 'close_after_loop_iterations': [0, CLOSE_STEPS - 1]}, limit=1)
+        return
     dev_explore(scenario_of(unit), unit['bound'], part, shard=tuple(unit['shard']), det_every=200)
 
 
@@ -276,4 +409,11 @@ def scenario_from(name, params):
 
 def replay(rec):
     w = rec['witness']
+    if w.get('kind') == 'close-during-reconnect':
+        from mc.runner import Partial
+        p = Partial()
+        close_during_reconnect(w['flavour'], w['cause'], w['trigger'], w['k'], w['pending'], p)
+        for v in p.violations.values():
+            print(v.rule, '|', v.detail)
+        return bool(p.violations)
     return bool(replay_witness(scenario_from(w['scenario'], w['params']), w))
